@@ -306,7 +306,7 @@ pub fn step<const M: usize>(s: &mut Sim<M>, rep: &mut Report, p: &Profile) -> (u
         }
         17 => {
             let f = fl(s);
-            let which = s.rng.below(8) as u8;
+            let which = s.rng.below(10) as u8;
             let n = pick_huge(s);
             s.op_huge(rep, which, n, f)
         }
